@@ -395,21 +395,47 @@ theorem rsd_idx_none {j j2 k : Nat} {v} (hv : Win src σ j2 k v) (h1 : 1 ≤ j2)
 
 /-! parameter items -/
 
-theorem rsi_param {m : Nat} {s : String} {n : Ident} {d : Option RExpr} (h1 : 1 ≤ m) (h2 : m ≤ N)
-    (hd : ∀ e, d = some e → ∃ jc kc, Win src σ jc kc e) :
-    RSI src (σ m).1 (σ m).2 (.param s (.mk (σ m) (σ m) n d)) :=
-  ⟨T.SE h1 h2, T.own m h1 h2, Nat.le_refl _, Nat.le_refl _, rfl, fun hp e he => by
-    obtain ⟨jc, kc, hw⟩ := hd e he
-    subst he
-    exact ⟨_, _, hw.2 hp⟩⟩
+theorem rsi_param {m : Nat} {s : String} {n : Ident} (h1 : 1 ≤ m) (h2 : m ≤ N) :
+    RSI src (σ m).1 (σ m).2 (.param s (.mk (σ m) (σ m) n none)) :=
+  ⟨T.SE h1 h2, fun _ => ⟨T.own m h1 h2, Nat.le_refl _, Nat.le_refl _, T.own m h1 h2, Nat.le_refl _, Nat.le_refl _,
+    fun e he => by cases he⟩⟩
+
+/-- a parameter with a default: the name is token `m`, the default lies in the token window `jc … kc` behind it; the
+    `ArgWithDefault` runs from the name to the end of the default's node, wherever inside its window that is -/
+theorem rsi_param_default {m jc kc : Nat} {s : String} {n : Ident} {d : RExpr} (h1 : 1 ≤ kc) (h2 : kc ≤ jc)
+    (h3 : jc < m) (h4 : m ≤ N) (hd : Win src σ jc kc d) :
+    RSI src (σ m).1 (σ kc).2 (.param s (.mk ((σ m).1, d.range.2) (σ m) n (some d))) := by
+  have hm := T.own m (by omega) h4
+  rw [show σ m = ((σ m).1, (σ m).2) from rfl, rgOk_iff] at hm
+  have e1 := T.ES (j := m) (k := jc) (by omega) h3 h4
+  have e2 := T.SE (k := kc) h1 (by omega)
+  have e3 := T.SS (j := jc) (k := kc) h1 h2 (by omega)
+  refine ⟨by omega, fun hp => ?_⟩
+  simp only [PItem.plain, plainO] at hp
+  obtain ⟨g1, g2, g3, g4⟩ := hd.2 hp
+  have g1' := g1
+  rw [show d.range = (d.range.1, d.range.2) from rfl, rgOk_iff] at g1'
+  have hrg : rgOk src ((σ m).1, d.range.2) := by
+    rw [rgOk_iff]; exact ⟨by omega, g1'.2.1, hm.2.2.1, g1'.2.2.2⟩
+  refine ⟨hrg, Nat.le_refl _, g3, T.own m (by omega) h4, Nat.le_refl _, by simp only []; omega, fun e he => ?_⟩
+  cases he
+  exact ⟨g1, by simp only []; omega, Nat.le_refl _, g4⟩
 
 theorem rsi_arg {m : Nat} {s : String} {n : Ident} (h1 : 1 ≤ m) (h2 : m ≤ N) :
     RSI src (σ m).1 (σ m).2 (.arg s (σ m, n)) :=
-  ⟨T.SE h1 h2, T.own m h1 h2, Nat.le_refl _, Nat.le_refl _, trivial⟩
+  ⟨T.SE h1 h2, fun _ => ⟨T.own m h1 h2, Nat.le_refl _, Nat.le_refl _, trivial⟩⟩
 
 /-- an item at token `m` behind a sequence that ended before it -/
 theorem seqP_snoc {j0 k m k' : Nat} {x xs} (hs : SeqP src σ j0 k xs) (hx : RSI src (σ m).1 (σ m).2 x)
     (h0 : k ≤ N) (h0' : j0 ≤ N) (h1 : 1 ≤ m) (h2 : m < k) (h3 : m ≤ j0) (h4 : 1 ≤ k') (h5 : k' ≤ m) :
+    SeqP src σ j0 k' (xs ++ [x]) := by
+  have e1 : (σ k).2 ≤ (σ m).1 := T.ES h1 h2 h0
+  have e2 : (σ j0).1 ≤ (σ m).1 := T.SS h1 h3 h0'
+  exact SeqG.snoc (windowed_rsi src) hs e2 e1 hx (T.EE h4 h5 (by omega))
+
+/-- an item that starts at token `m` and ends with token `kc` behind a sequence that ended before it -/
+theorem seqP_snoc_to {j0 k m kc k' : Nat} {x xs} (hs : SeqP src σ j0 k xs) (hx : RSI src (σ m).1 (σ kc).2 x)
+    (h0 : k ≤ N) (h0' : j0 ≤ N) (h1 : 1 ≤ m) (h2 : m < k) (h3 : m ≤ j0) (h4 : 1 ≤ k') (h5 : k' ≤ kc) (h6 : kc ≤ m) :
     SeqP src σ j0 k' (xs ++ [x]) := by
   have e1 : (σ k).2 ≤ (σ m).1 := T.ES h1 h2 h0
   have e2 : (σ j0).1 ≤ (σ m).1 := T.SS h1 h3 h0'
